@@ -9,7 +9,9 @@ from .. import common, formula as F, impl, disc
 from ..engine import Violation, Ctx
 
 RULE = ("discrete: typed random formulas without unbounded future (depth<=4, bounds 0..4, next allowed), trace w1 of length "
-        "1..10 and 2 random extensions by 1..6 samples; compared at all t with t+hor<|w1|. dense: see stream ext-c. distinct by "
+        "1..10 and 2 random extensions by 1..6 samples; compared at all t with t+hor<|w1|; stream ext-d/shared-var: one variable read as a bare operand "
+        "by a bounded since (or another temporal operator) and again by a sibling / enclosing / nested operator or as both operands, "
+        "trace length 2..12. dense: see stream ext-c. distinct by "
         "(spec, w1, w2); non-trivial when at least one settled position exists and the settled values are not all +-inf.")
 EXPLANATION = ("theorems: C16_settled (rho at t is determined by samples 0..t+hor, any two trace lengths), C16_futureFree_hor, "
                "C16_offline_extension (transfer to the offline evaluator through C01). Correspondence: evaluate() on w1 and on "
@@ -52,6 +54,135 @@ def gen_case(rng):
         case["reconf"] = True
         case["stream"] = "ext-d/reconfigured"
     return case
+
+
+def shared_var_formula(rng, g):
+    """One variable read DIRECTLY (a bare variable as operand, no predicate in between) by a temporal operator - most often a
+    bounded since - and read again later in the traversal: by a right sibling, by an enclosing operator, by a nested bounded
+    since, or as the other operand of the same operator.  What an operator does with the list it gets from the variable node
+    (the list of the data set itself) must not be seen by the later reader: a pure-past value at t would then depend on how
+    long the trace is.  No unbounded future operator is produced."""
+    x = ("v", rng.choice(VARS))
+    others = [("v", v) for v in VARS if v != x[1]]
+
+    def bnd():
+        a = rng.randint(0, 2)
+        return a, a + rng.randint(0 if a else 1, 3)
+
+    def operand(d):
+        u = rng.random()
+        if u < 0.5:
+            return x
+        if u < 0.7:
+            return rng.choice(others)
+        if u < 0.88 or d <= 0:
+            return g.formula(1)
+        return temporal(d - 1)
+
+    def bsince(l, r):
+        a, b = bnd()
+        return ("tb2", "since", a, b, l, r)
+
+    def temporal(d, force=False):
+        k = "bsince" if force else rng.choice(["bsince", "bsince", "bsince", "buntil", "tb1", "tb1", "t1", "since"])
+        if k == "bsince":
+            l, r = operand(d), operand(d)
+            if force and x not in (l, r):
+                l, r = (x, r) if rng.random() < 0.5 else (l, x)
+            return bsince(l, r)
+        a, b = bnd()
+        if k == "buntil":
+            return ("tb2", "until", a, b, operand(d), operand(d))
+        if k == "tb1":
+            return ("tb1", rng.choice(F.TB1_PAST + F.TB1_PAST + F.TB1_FUT), a, b, operand(d))
+        if k == "t1":
+            return ("t1", rng.choice(["prev", "sprev", "once", "hist", "next", "snext", "rise", "fall"]), operand(d))
+        return ("t2", "since", operand(d), operand(d))
+
+    def reader():
+        """a later reader of x: the bare variable, a predicate over it, or another temporal operator on it"""
+        u = rng.random()
+        if u < 0.2:
+            return x
+        if u < 0.35:
+            return ("b", rng.choice(F.CMP), x, rng.choice(others + [("c", 0.0), ("c", 1.0)]))
+        if u < 0.8:
+            a, b = bnd()
+            return ("tb1", rng.choice(F.TB1_PAST + F.TB1_PAST + F.TB1_FUT), a, b, x)
+        return temporal(0)
+
+    bop = lambda: rng.choice(["and", "or", "implies", "and"])      # noqa: E731
+    first = temporal(1, force=rng.random() < 0.65)
+    shape = rng.choice(["sibling", "sibling", "sibling", "enclosing", "enclosing", "nested", "same"])
+    if shape == "sibling":
+        f = ("b", bop(), first, reader())
+        if rng.random() < 0.3:
+            f = ("b", bop(), f, reader())
+    elif shape == "enclosing":
+        inner = ("b", bop(), first, reader()) if rng.random() < 0.5 else first
+        u = rng.random()
+        a, b = bnd()
+        if u < 0.35:
+            f = ("tb1", rng.choice(F.TB1_PAST), a, b, inner)
+            if inner is first:
+                f = ("b", bop(), f, reader())
+        elif u < 0.7:
+            f = ("tb2", "since", a, b, inner, x)
+        elif u < 0.85:
+            f = ("t2", "since", inner, x)
+        else:
+            f = ("tb2", rng.choice(["since", "until"]), a, b, x, inner)
+    elif shape == "nested":
+        y = rng.choice(others + [x])
+        inner = bsince(x, y) if rng.random() < 0.6 else bsince(y, x)
+        f = bsince(x, inner) if rng.random() < 0.5 else bsince(inner, x)
+        if rng.random() < 0.3:
+            f = ("b", bop(), f, reader())
+    else:
+        f = bsince(x, x)
+        if rng.random() < 0.6:
+            f = ("b", bop(), f, reader())
+    return f
+
+
+def gen_shared_var_case(rng):
+    """stream `ext-d/shared-var`: see shared_var_formula; traces of length 2..12 and two extensions, as in gen_case"""
+    g = F.Gen(rng, VARS, ALLOW, max_bound=rng.choice([2, 3]))
+    f = shared_var_formula(rng, g)
+    n1 = rng.randint(2, 12)
+    vs = F.variables(f) or ["a"]
+    w1 = F.gen_trace(rng, vs, n1)
+    exts = []
+    for _ in range(2):
+        k = rng.randint(1, 6)
+        tail = F.gen_trace(rng, vs, k, vals=(-9.0, -3.0, 0.0, 3.0, 9.0, 100.0, -100.0))
+        exts.append({v: w1[v] + tail[v] for v in vs})
+    return {"stream": "ext-d/shared-var", "f": f, "n": n1, "data": w1, "exts": exts, "decl": vs}
+
+
+def shrink_violation(ctx, case, v):
+    """A smaller failing case (plain cases only: text = to_text(f), fresh object): samples of w1 dropped, sub-formulas replaced
+    by children, bounds and values reduced; the extensions keep their tails behind the shrunk w1."""
+    if case.get("render") or case.get("reconf"):
+        return v
+    n0 = case["n"]
+    tails = [{k: list(e[k][n0:]) for k in e} for e in case["exts"]]
+    scratch = Ctx(ctx.id, ctx.tier, ctx.seed)
+
+    def complete(cc):
+        return dict(cc, exts=[{k: list(cc["data"][k]) + t[k] for k in cc["data"]} for t in tails])
+
+    def fails(cc):
+        cc = complete(cc)
+        (hor, m_rho), = model([cc])
+        return check_case(scratch, cc, hor, m_rho) is not None
+    c2 = complete(disc.shrink_case(case, fails, budget=60))
+    try:
+        (hor, m_rho), = model([c2])
+        v2 = check_case(scratch, c2, hor, m_rho)
+    except common.HarnessError:
+        v2 = None
+    return v2 or v
 
 
 def check_case(ctx, case, hor, m_rho1):
@@ -136,8 +267,8 @@ def model(cases):
     return res
 
 
-def explore(ctx, rng, count):
-    cases = [gen_case(rng) for _ in range(count)]
+def explore(ctx, rng, count, gen=None):
+    cases = [(gen or gen_case)(rng) for _ in range(count)]
     ms = model(cases)
     for c, (hor, m_rho) in zip(cases, ms):
         ctx.evaluations += 1
@@ -149,7 +280,7 @@ def explore(ctx, rng, count):
             if len(ctx.samples) < 3 and hor >= 2:
                 ctx.sample({"spec": "out = " + F.to_text(c["f"]), "w1": c["data"], "w2": c["exts"][0], "horizon": hor})
         else:
-            ctx.violations.append(v)
+            ctx.violations.append(shrink_violation(ctx, c, v))
             if len(ctx.violations) >= 3:
                 return
 
@@ -167,6 +298,8 @@ def replay(ctx, obj):
 def run(ctx):
     explore(ctx, ctx.subrng("ext-d"), ctx.budget(1200, 10000))
     if not ctx.violations:
+        explore(ctx, ctx.subrng("shared-var"), ctx.budget(160, 1500), gen_shared_var_case)
+    if not ctx.violations:
         try:
             from . import c04
             c04.extension_stream(ctx)
@@ -175,4 +308,6 @@ def run(ctx):
 
 
 def search(ctx):
-    explore(ctx, ctx.subrng("search"), ctx.budget(1500, 6000))
+    explore(ctx, ctx.subrng("search-shared-var"), ctx.budget(400, 2000), gen_shared_var_case)
+    if not ctx.violations:
+        explore(ctx, ctx.subrng("search"), ctx.budget(1500, 6000))
